@@ -9,7 +9,11 @@
         der3Ham_abc        = sum_terms c 2^(q(3-d)) d_a d_b d_c z^e  (KPStencil!D3Exact)
    Record fields: A, q, red, nst (stencil vectors n), wst (their weights [num, den]), nu, polys, sc = <<sc1, sc2, sc3>>
    (integer scales chosen by the harness so that the right-hand sides times sc_j are integers), v1[j][a], v2[j][3(a-1)+b],
-   v3[j][9(a-1)+3(b-1)+c] = round(float value * 2^(q(3-j)) * sc_j), tol = <<t1, t2, t3>> integer tolerances. *)
+   v3[j][9(a-1)+3(b-1)+c] = round(float value * 2^(q(3-j)) * sc_j), tol = <<t1, t2, t3>> integer tolerances.
+   nst / wst are optional (the stencil is an internal of the code: when the harness cannot read it, only the clauses that
+   do not need it are evaluated).  Optional T4 = the 81 numbers round(sc[1] * T_abcd / h^2) with T_abcd the fourth moment
+   of the stencil as MEASURED through derHam of the ten cubic monomials (T_abcd = D1_a (x_b x_c x_d)(0)): it must be the
+   fourth moment of the declared stencil.  A record with polys = <<>> carries a stencil only (find_shells). *)
 EXTENDS KPStencil, Json, IOUtils, TLCExt
 VARIABLE i
 Recs == JsonDeserialize(IOEnv.TRACE_FILE).recs
@@ -46,10 +50,14 @@ D1Poly(poly, a) ==
              RSumSet(SRec, LAMBDA p : RScale(CartVec(ARec, p[1])[a] * MonoVal(TermExp(poly[m]), ZOf(p[1])), p[2]))))
 Close(r, sc, v, tol) == RLeq(RAbs(RSub(RScale(sc, r), RInt(v))), RInt(tol))
 NP == Len(Rec.polys)
+HasStencil == "nst" \in DOMAIN Rec
+HasT4 == "T4" \in DOMAIN Rec
 Clauses ==
-   [ stencil_props |-> NS > 0 /\ Len(Rec.wst) = NS /\ Functional(CRec) /\ NegClosed(CRec) /\ CartComplete(CRec) /\ DetA # 0,
+   [ stencil_props |-> HasStencil => (NS > 0 /\ Len(Rec.wst) = NS /\ Functional(CRec) /\ NegClosed(CRec) /\ CartComplete(CRec) /\ DetA # 0),
+     t4_of_stencil |-> (HasStencil /\ HasT4) =>
+                          \A a, b, c, d \in I3 : Close(T4(CRec, a, b, c, d), Rec.sc[1], Rec.T4[27 * (a - 1) + 9 * (b - 1) + 3 * (c - 1) + d], 1),
      degree        |-> \A j \in 1..NP : \A m \in 1..Len(Rec.polys[j]) : TermDeg(Rec.polys[j][m]) <= 3,
-     d1            |-> \A j \in 1..NP : \A a \in I3 : Close(D1Poly(Rec.polys[j], a), Rec.sc[1], Rec.v1[j][a], Rec.tol[1]),
+     d1            |-> HasStencil => \A j \in 1..NP : \A a \in I3 : Close(D1Poly(Rec.polys[j], a), Rec.sc[1], Rec.v1[j][a], Rec.tol[1]),
      d2            |-> \A j \in 1..NP : \A a, b \in I3 : a <= b =>
                           Close(AnalyticPoly(Rec.polys[j], <<a, b>>), Rec.sc[2], Rec.v2[j][3 * (a - 1) + b], Rec.tol[2]),
      d2_symmetric  |-> \A j \in 1..NP : \A a, b \in I3 : Rec.v2[j][3 * (a - 1) + b] = Rec.v2[j][3 * (b - 1) + a],
